@@ -294,7 +294,7 @@ func Unwrap[T ~string](str T, token string) T {
 	startToken := strings.Index(string(str), token)
 	endToken := strings.LastIndex(string(str), token)
 
-	if startToken == 0 && endToken <= len(str)-1 {
+	if startToken == 0 && endToken >= len(token) && endToken == len(str)-len(token) {
 		str = str[len(token):endToken]
 	}
 
